@@ -316,7 +316,8 @@ def mt_str(node, toks=None):
     if isinstance(node, int):
         if toks:
             t = toks[node - 1]
-            return '%s/%s@%d' % (t['word'], t['pos'], node)
+            e = t.get('edge')
+            return '%s/%s%s@%d' % (t['word'], t['pos'], ':' + e if e not in ('--', None) else '', node)
         return str(node)
     lab = node[0] + (':' + node[1] if node[1] not in ('--', None) else '')
     return '(' + lab + ' ' + ' '.join(mt_str(k, toks) for k in node[2]) + ')'
